@@ -106,6 +106,7 @@ struct Run {
   int lanes = 2;
   bool serial = false;
   bool traceOn = false;
+  bool fifo = false;
   bool cancelOnFailure = false;   // the harness delegate cancels the build on the first command failure
   bool cliDriver = false;   // builds go through `llbuild buildsystem build` (lib/Commands/BuildSystemCommand.cpp) instead of the harness delegate
   int cliBuilds = 0;
@@ -548,6 +549,7 @@ void Run::load() {
   lanes = (int)cfg->getn("lanes", 2);
   serial = cfg->getb("serial");
   traceOn = cfg->getb("trace");
+  fifo = cfg->getb("fifo");
   cliDriver = cfg->getb("cli_driver") && (property == "C08" || property == "C09" || property == "C10");
   cancelOnFailure = cfg->getb("cancel_on_failure") && property == "C10";
   for (auto& e : cfg->geta("base_env")) baseEnv.push_back(e.s);
@@ -840,6 +842,7 @@ void Run::opBuild(const Json& op) {
       S.inv.dbPath = "build.db";
       S.inv.useSerialBuild = serial;
       S.inv.schedulerLanes = (uint32_t)lanes;
+      S.inv.schedulerAlgorithm = fifo ? basic::SchedulerAlgorithm::FIFO : basic::SchedulerAlgorithm::NamePriority;
       if (traceOn) S.inv.traceFilePath = std::string(kWork) + "/trace/build.trace";
       S.envStore = baseEnv;
       for (auto& e : S.envStore) S.envp.push_back(e.c_str());
@@ -1880,6 +1883,7 @@ struct Gen {
     cfg.set("lanes", (int64_t)rng.range(1, 4));
     cfg.setb("serial", rng.chance(250));
     cfg.setb("trace", rng.chance(100));   // build-system tracing to a file
+    cfg.setb("fifo", rng.chance(400));    // scheduler algorithm of the lane queue
     cfg.setb("cli_driver", rng.chance(property == "C10" ? 250 : 150));
     cfg.setb("cancel_on_failure", rng.chance(300));
     cfg.set("policy", (int64_t)rng.below(3));
